@@ -1,14 +1,15 @@
 """C05 — hash-tree-roots agree across struct form, tree-view form and the SSZ spec."""
 from .common import TB_COMMON
-from .c04 import TB_SSZ
+from .c04 import TB_SSZ, facts_coverage
 
 PROPS = {"C05": dict(
+    custom=facts_coverage,
     module="Proofs.Properties.C05",
     theorems=["Zrnt.Proofs.C05.merkleize_eq_spec", "Zrnt.Proofs.C05.merkleize_pad_zero",
               "Zrnt.Proofs.C05.mixInLength_inj", "Zrnt.Proofs.C05.htr_determined_by_bytes",
               "Zrnt.Proofs.C05.htr_eq_spec", "Zrnt.Proofs.C05.htr_eq_spec_of_decode",
               "Zrnt.Proofs.C05.setMany_valid", "Zrnt.Proofs.C05.tree_root_after_sets",
-              "Zrnt.Proofs.C05.tree_set_leaves"],
+              "Zrnt.Proofs.C05.tree_set_leaves", "Zrnt.Proofs.C05.htr_struct_and_view_agree_with_schema"],
     modes=[dict(name="ssz"), dict(name="sszstate")],
     level="proof",
     trusted_base=TB_COMMON + TB_SSZ + [
